@@ -610,47 +610,72 @@ func ruleR234(c *Ctx) {
 			continue
 		}
 		T := recvNamed(r.Obj)
+		if probed[T] == nil {
+			continue
+		}
 		in := info(f)
-		for _, d := range typeDispatches(p, f, isIMessage) {
-			for _, a := range d {
-				if len(a.Types) != 1 || !isReport(a.Types[0]) {
-					continue
+		isResult := func(z ast.Node) bool {
+			se, ok := z.(*ast.SelectorExpr)
+			if !ok {
+				return false
+			}
+			fv := fieldOf(in, se)
+			return fv != nil && fv.Name() == "result" && isReport(in.TypeOf(se.X))
+		}
+		// locals that hold a reported index: range values over the result, locals defined from it
+		idx := map[types.Object]bool{}
+		inspectNoLit(f.Body, func(m ast.Node) bool {
+			switch x := m.(type) {
+			case *ast.RangeStmt:
+				if x.Value != nil && isResult(unparen(x.X)) {
+					if o := objOf(in, x.Value); o != nil {
+						idx[o] = true
+					}
 				}
-				for _, st := range a.Body {
-					inspectNoLit(st, func(m ast.Node) bool {
-						rs, ok := m.(*ast.RangeStmt)
-						if !ok || rs.Value == nil {
-							return true
+			case *ast.AssignStmt:
+				if len(x.Lhs) == len(x.Rhs) {
+					for i, l := range x.Lhs {
+						if id, ok := unparen(l).(*ast.Ident); ok {
+							if ie, ok := unparen(x.Rhs[i]).(*ast.IndexExpr); ok && isResult(unparen(ie.X)) {
+								if o := objOf(in, id); o != nil {
+									idx[o] = true
+								}
+							}
 						}
-						// ranges over the report's indices
-						if fv := fieldOf(in, rs.X); fv == nil || fv.Name() != "result" {
-							return true
-						}
-						iv := objOf(in, rs.Value)
-						inspectNoLit(rs.Body, func(z ast.Node) bool {
-							ix, ok := z.(*ast.IndexExpr)
-							if !ok {
-								return true
-							}
-							id, ok := unparen(ix.Index).(*ast.Ident)
-							if !ok || objOf(in, id) != iv {
-								return true
-							}
-							n++
-							fv := fieldOf(in, ix.X)
-							same := fv != nil && probed[T][fv]
-							var names []string
-							for v := range probed[T] {
-								names = append(names, v.Name())
-							}
-							c.Check(same, f, ix, "list indexed by a probe result in "+T.Obj().Name(), what, ifElse(same, exprString(ix.X)+" is what the probe was given", exprString(ix.X)+" is indexed, the probe was given "+strings.Join(names, ",")))
-							return true
-						})
-						return true
-					})
+					}
 				}
 			}
-		}
+			return true
+		})
+		inspectNoLit(f.Body, func(z ast.Node) bool {
+			ix, ok := z.(*ast.IndexExpr)
+			if !ok || isResult(unparen(ix.X)) {
+				return true
+			}
+			byResult := mentionsDeep(ix.Index, func(y ast.Node) bool {
+				if isResult(y) {
+					return true
+				}
+				id, ok := y.(*ast.Ident)
+				return ok && idx[objOf(in, id)]
+			})
+			if !byResult {
+				return true
+			}
+			n++
+			var same bool
+			for _, src := range resolveLocalExpr(in, f, ix.X) {
+				if fv := fieldOf(in, src); fv != nil && probed[T][fv] {
+					same = true
+				}
+			}
+			var names []string
+			for v := range probed[T] {
+				names = append(names, v.Name())
+			}
+			c.Check(same, f, ix, "list indexed by a probe result in "+T.Obj().Name(), what, ifElse(same, exprString(ix.X)+" is what the probe was given", exprString(ix.X)+" is indexed, the probe was given "+strings.Join(names, ",")))
+			return true
+		})
 	}
 	if n == 0 {
 		c.Missing("probe result lookups", "no handler of gatewayProbingReport that indexes a list with the reported indices was found")
@@ -829,7 +854,7 @@ func returnsCallOf(p *Prog, f *FuncInfo, name string) bool {
 func init() {
 	register(&Rule{ID: "R240", Title: "whether a token goes on is decided by its own move: the local that holds the outcome of the token's own sequence flow (the call that moves the token) is defined by that call alone", Min: 1, Run: ruleR240})
 	register(&Rule{ID: "R241", Title: "an activity or event continues over all its outgoing flows: every flowAction a non-gateway node answers with carries allSequenceFlows(&outgoing), set in the literal and not depending on what happened inside", Min: 5, Run: ruleR241})
-	register(&Rule{ID: "R242", Title: "the caller's option list is the caller's: a function appends to its variadic parameter in place only in a branch the constructor of the options makes unreachable", Min: 2, Run: ruleR242})
+	register(&Rule{ID: "R242", Title: "the caller's option list is the caller's: a function appends to its variadic parameter in place only in a branch the constructor of the options makes unreachable", Min: 0, Run: ruleR242})
 	register(&Rule{ID: "R243", Title: "an edge starts on its source and ends on its target: the first waypoint of a connection is computed from the source bounds only, the last from the target bounds only", Min: 2, Run: ruleR243})
 	register(&Rule{ID: "R244", Title: "an empty list and no list are the same model: no predicate over the schema model compares a list with nil (XML has no empty list: it parses back as nil)", Min: 0, Run: ruleR244})
 	register(&Rule{ID: "R245", Title: "no read lock is taken twice: while a method holds a lock of its receiver it calls no method of the same receiver that acquires that lock (a writer queued in between blocks both for ever)", Min: 0, Run: ruleR245})
@@ -1045,6 +1070,27 @@ func ruleR242(c *Ctx) {
 			}
 			n++
 			dead := ""
+			// the parameter was replaced by a private copy before: vp = append([]T(nil), vp...) as a statement of the
+			// function body
+			for _, st := range r.Body.List {
+				if st.Pos() >= as.Pos() {
+					break
+				}
+				cp, ok := st.(*ast.AssignStmt)
+				if !ok || len(cp.Lhs) != 1 || len(cp.Rhs) != 1 {
+					continue
+				}
+				if id, ok := unparen(cp.Lhs[0]).(*ast.Ident); !ok || objOf(in, id) != types.Object(vp) {
+					continue
+				}
+				if cc, ok := unparen(cp.Rhs[0]).(*ast.CallExpr); ok && isBuiltin(in, cc, "append") && len(cc.Args) == 2 && cc.Ellipsis.IsValid() {
+					if a0, isId := unparen(cc.Args[0]).(*ast.Ident); !isId || objOf(in, a0) != types.Object(vp) {
+						if tv, ok := in.Types[cc.Args[0]]; ok && (tv.IsNil() || isConversionOfNil(in, cc.Args[0])) {
+							dead = "the parameter holds a private copy since " + c.pos(cp)
+						}
+					}
+				}
+			}
 			for _, pc := range polarConds(p, as) {
 				be, ok := unparen(pc.cond).(*ast.BinaryExpr)
 				if !ok || !pc.positive || be.Op != token.EQL {
@@ -1067,13 +1113,11 @@ func ruleR242(c *Ctx) {
 					}
 				}
 			}
-			c.Check(dead != "", f, as, "in-place append to the variadic parameter "+vp.Name()+" of "+r.QName(), what, ifElse(dead != "", "unreachable ("+dead+")", "reachable: the append writes into the caller's slice"))
+			c.Check(dead != "", f, as, "in-place append to the variadic parameter "+vp.Name()+" of "+r.QName(), what, ifElse(dead != "", "harmless ("+dead+")", "reachable: the append writes into the caller's slice"))
 			return true
 		})
 	}
-	if n == 0 {
-		c.Missing("variadic appends", "no in-place append to a variadic parameter was found (the rule's instances on this tree are the two unreachable ones in Engine.NewProcess)")
-	}
+	_ = n
 }
 
 // r243deps: the parameters of f that the value of e depends on (data dependences only), through locals and through the
@@ -1410,4 +1454,17 @@ func ruleR245(c *Ctx) {
 			}
 		}
 	}
+}
+
+// isConversionOfNil: []T(nil)
+func isConversionOfNil(in *types.Info, e ast.Expr) bool {
+	cl, ok := unparen(e).(*ast.CallExpr)
+	if !ok || len(cl.Args) != 1 {
+		return false
+	}
+	if tv, ok := in.Types[cl.Fun]; !ok || !tv.IsType() {
+		return false
+	}
+	tv, ok := in.Types[cl.Args[0]]
+	return ok && tv.IsNil()
 }
